@@ -59,7 +59,7 @@ def resBytes : Res Bytes → String
 
 def ops : List Op := [
   ("htmlesc", with1 fun b => okBytes (htmlEscape b)),
-  ("gohtmlesc", with1 fun b => okBytes (goHtmlEscape b)),
+  ("gohtmlesc", with1 fun b => okBytes (htmlEscape b)),
   ("jsesc", with1 fun b => okBytes (jsEscape b)),
   ("jsesc2", with1 fun b => okBytes (jsEscapeFixed b)),
   ("jsrt2", with1 fun b => match Spec.jsUnescape (jsEscapeFixed b) with
